@@ -1416,6 +1416,190 @@ pub fn run_c12_damaged(ctx: &Ctx, st: &mut Local) {
     e.exhaustive = true;
 }
 
+/// the fixed list of wrapper calls used by E14env; returns "status,result_size" per call (nothing is printed)
+fn cabienv_calls(s: &dyn Subject) -> Vec<String> {
+    let files = file_menu(true);
+    let mut small: Vec<&(String, Vec<u8>)> = files.iter().filter(|(_, f)| !f.is_empty() && f.len() <= 2400).collect();
+    small.sort_by_key(|(_, f)| f.len());
+    let pick: Vec<&(String, Vec<u8>)> = small.iter().step_by((small.len() / 6).max(1)).cloned().collect();
+    let mut res = Vec::new();
+    for (_, f) in pick {
+        let cap = comp::zstd_compress_bound(f.len() * 2 + 4096);
+        let mut out = vec![0u8; cap];
+        let mut rs: u64 = 0;
+        // undersized compress, sufficient compress, decompress of a non-frame, undersized decompress, sufficient decompress
+        let rc = unsafe { s.c_compress(f.as_ptr(), f.len() as u64, out.as_mut_ptr(), 8, &mut rs) };
+        res.push(format!("{}", rc.min(0).max(-1)));
+        let rc = unsafe { s.c_compress(f.as_ptr(), f.len() as u64, out.as_mut_ptr(), cap as u64, &mut rs) };
+        res.push(format!("{},{}", rc, rs));
+        let z = out[..(rs as usize).min(cap)].to_vec();
+        let mut back = vec![0u8; f.len() + 64];
+        let mut rs2: u64 = 0;
+        let rc = unsafe { s.c_decompress(f.as_ptr(), f.len() as u64, back.as_mut_ptr(), back.len() as u64, &mut rs2) };
+        res.push(format!("{}", rc.min(0).max(-1)));
+        let rc = unsafe { s.c_decompress(z.as_ptr(), z.len() as u64, back.as_mut_ptr(), (f.len() / 2) as u64, &mut rs2) };
+        res.push(format!("{}", rc.min(0).max(-1)));
+        let rc = unsafe { s.c_decompress(z.as_ptr(), z.len() as u64, back.as_mut_ptr(), back.len() as u64, &mut rs2) };
+        res.push(format!("{},{},{}", rc, rs2, back[..(rs2 as usize).min(back.len())] == f[..]));
+    }
+    res
+}
+
+/// child side of E14env: runs the calls and writes the statuses to a file (stdout / stderr may be unusable)
+pub fn cabienv_main(s: &dyn Subject, out_path: &str) {
+    let res = cabienv_calls(s);
+    let _ = std::fs::write(out_path, res.join("\n"));
+}
+
+/// C12 under a hostile process environment: the same failing and succeeding wrapper calls in child processes whose
+/// stderr / stdout cannot be written to (full device, closed pipe, closed descriptor). The statuses must be the same
+/// as in this process and the child must end normally.
+pub fn run_c12_env(ctx: &Ctx, st: &mut Local) {
+    let name = "E14env";
+    if !ctx.engine_on(name) {
+        return;
+    }
+    let s = ctx.cur;
+    let variants: [(&str, &str); 7] = [("null", "null"), ("full", "null"), ("null", "full"), ("full", "full"), ("epipe", "null"), ("null", "epipe"), ("closed", "closed")];
+    let mut expected: Option<Vec<String>> = None;
+    for (vi, (err, out)) in variants.iter().enumerate() {
+        let i = vi as u64;
+        count(ctx, name, st, i, vi > 0);
+        if !ctx.take(name, i) {
+            continue;
+        }
+        let exp = expected.get_or_insert_with(|| cabienv_calls(s)).clone();
+        st.sample(name, || format!("#{} child process with stderr={} stdout={}: {} wrapper calls", i, err, out, exp.len()));
+        ctx.begin(name, i, 120_000);
+        let path = format!("/verif/target/run/c12_env_{}_{}_{}.txt", std::process::id(), ctx.thread, vi);
+        let _ = std::fs::create_dir_all("/verif/target/run");
+        let _ = std::fs::remove_file(&path);
+        let exe = std::env::current_exe().unwrap();
+        let mut cmd = std::process::Command::new(&exe);
+        cmd.arg("cabienv").arg(&path).stdin(std::process::Stdio::null());
+        let mut keep: Vec<std::process::ChildStdout> = Vec::new();
+        let mk = |what: &str, keep: &mut Vec<std::process::ChildStdout>| -> std::process::Stdio {
+            match what {
+                "full" => std::fs::OpenOptions::new().write(true).open("/dev/full").map(std::process::Stdio::from).unwrap_or(std::process::Stdio::null()),
+                "epipe" => {
+                    // a pipe whose read end is closed before the child writes: `true` exits at once and its stdin closes
+                    match std::process::Command::new("true").stdin(std::process::Stdio::piped()).spawn() {
+                        Ok(mut c) => {
+                            let w = c.stdin.take().unwrap();
+                            let _ = c.wait();
+                            let _ = keep;
+                            std::process::Stdio::from(w)
+                        }
+                        Err(_) => std::process::Stdio::null(),
+                    }
+                }
+                _ => std::process::Stdio::null(),
+            }
+        };
+        if *err != "closed" {
+            cmd.stderr(mk(err, &mut keep));
+            cmd.stdout(mk(out, &mut keep));
+        } else {
+            use std::os::unix::process::CommandExt;
+            unsafe {
+                cmd.pre_exec(|| {
+                    libc::close(1);
+                    libc::close(2);
+                    Ok(())
+                });
+            }
+        }
+        let status = cmd.status();
+        ctx.end();
+        let got = std::fs::read_to_string(&path).unwrap_or_default();
+        let _ = std::fs::remove_file(&path);
+        match status {
+            Err(e) => crate::streams::harness_bug(&format!("cannot spawn the E14env child: {}", e)),
+            Ok(stt) => {
+                let got: Vec<String> = got.lines().map(|l| l.to_string()).collect();
+                if !stt.success() {
+                    st.violation(ctx.viol(name, i, "process-dies-under-unwritable-stderr", None,
+                        format!("child with stderr={} stdout={} ended with {:?} after {} of {} wrapper calls were recorded", err, out, stt, got.len(), exp.len()), &[]));
+                } else if got != exp {
+                    let k = got.iter().zip(exp.iter()).position(|(a, b)| a != b).unwrap_or(got.len().min(exp.len()));
+                    st.violation(ctx.viol(name, i, "statuses-depend-on-process-environment", None,
+                        format!("child with stderr={} stdout={}: call #{} gives {:?}, in this process {:?}", err, out, k, got.get(k), exp.get(k)), &[]));
+                } else {
+                    st.outcome(name, "same-statuses-child-alive");
+                }
+            }
+        }
+    }
+    let e = st.eng(name);
+    e.bound = "7 process environments (stderr / stdout to /dev/null, /dev/full, a pipe without reader, closed descriptors) x 30 wrapper calls (undersized and sufficient compress, non-frame / undersized / sufficient decompress of 6 files): statuses equal to the in-process ones, child exits normally".into();
+    e.exhaustive = true;
+}
+
+/// input and output buffer of one call carved out of one allocation, directly adjacent (either order) or one byte apart
+pub fn run_c12_adjacent(ctx: &Ctx, st: &mut Local) {
+    let name = "E14adj";
+    if !ctx.engine_on(name) {
+        return;
+    }
+    let s = ctx.cur;
+    let mut files = file_menu(true);
+    files.retain(|(_, f)| f.len() <= 2400 && !f.is_empty());
+    files.sort_by_key(|(_, f)| f.len());
+    let n = files.len();
+    let pick: Vec<usize> = if ctx.quick() { (0..n).step_by((n / 7).max(1)).collect() } else { (0..n).collect() };
+    let mut idx = 0u64;
+    for &a in &pick {
+        for in_first in [true, false] {
+            for gap in [0usize, 1] {
+                let i = idx;
+                idx += 1;
+                count(ctx, name, st, i, true);
+                if !ctx.take(name, i) {
+                    continue;
+                }
+                let f = &files[a].1;
+                st.sample(name, || format!("#{} {}: {} in one allocation, {} byte(s) apart", i, files[a].0, if in_first { "input then output" } else { "output then input" }, gap));
+                ctx.begin(name, i, 60_000);
+                // one arena; the two regions never overlap
+                let round = |src: &[u8], cap: usize, compress: bool| -> (i32, Vec<u8>) {
+                    let mut arena = vec![0xc3u8; src.len() + gap + cap];
+                    let (ioff, ooff) = if in_first { (0, src.len() + gap) } else { (cap + gap, 0) };
+                    arena[ioff..ioff + src.len()].copy_from_slice(src);
+                    let base = arena.as_mut_ptr();
+                    let mut rs: u64 = 0;
+                    let rc = unsafe {
+                        if compress {
+                            s.c_compress(base.add(ioff) as *const u8, src.len() as u64, base.add(ooff), cap as u64, &mut rs)
+                        } else {
+                            s.c_decompress(base.add(ioff) as *const u8, src.len() as u64, base.add(ooff), cap as u64, &mut rs)
+                        }
+                    };
+                    let input_intact = arena[ioff..ioff + src.len()] == src[..];
+                    if rc == 0 && rs as usize <= cap && input_intact {
+                        (rc, arena[ooff..ooff + rs as usize].to_vec())
+                    } else {
+                        (if rc == 0 { -77 } else { rc }, vec![])
+                    }
+                };
+                let cap = comp::zstd_compress_bound(f.len() * 2 + 4096);
+                let (rc1, z) = round(f, cap, true);
+                let (rc2, back) = if rc1 == 0 { round(&z, f.len() + 16, false) } else { (0, vec![]) };
+                ctx.end();
+                if rc1 != 0 {
+                    st.violation(ctx.viol(name, i, "compress-fails-with-adjacent-buffers", None, format!("WrapperCompressZip returns {} (-77: result_size or input damaged) with a sufficient output buffer that lies next to the input", rc1), f));
+                } else if rc2 != 0 || back != *f {
+                    st.violation(ctx.viol(name, i, "decompress-fails-with-adjacent-buffers", None, format!("WrapperDecompressZip returns {} / {} bytes with a sufficient output buffer that lies next to the input", rc2, back.len()), f));
+                } else {
+                    st.outcome(name, "adjacent-buffers-ok");
+                }
+            }
+        }
+    }
+    let e = st.eng(name);
+    e.bound = format!("{} files x {{input before output, output before input}} x gap {{0, 1}} bytes inside one allocation, compress then decompress", pick.len());
+    e.exhaustive = true;
+}
+
 /// caller-owned buffers reused across calls: the same input address (and length) carrying a different file, after a
 /// failed or a successful call
 pub fn run_c12_buf(ctx: &Ctx, st: &mut Local) {
